@@ -118,6 +118,10 @@ class Script:
     def put(self, path, content=""):
         return self.add("put %s %s" % (hexs(path), hexs(content)))
 
+    def putforeign(self, path, content=""):
+        """the file belongs to another user and is readable by everybody (a shared directory)"""
+        return self.add("putforeign %s %s" % (hexs(path), hexs(content)))
+
     def putn(self, path, n, b=0):
         return self.add("putn %s %d %d" % (hexs(path), n, b))
 
@@ -229,6 +233,19 @@ def base_cfg(**kw):
     for k, v in kw.items():
         setattr(c, k, v)
     return c
+
+
+def elf_image_relocated(interp, phnum=3, pad=40):
+    """an ELF64 image whose program header table does NOT follow the header (the layout patchelf and some linkers
+    produce: e_phoff != 64): header, padding, the interpreter string, then the table with PT_INTERP as its last entry"""
+    import struct
+    ib = interp.encode("latin-1") + b"\0"
+    data_off = 64 + pad
+    phoff = data_off + len(ib)
+    hdr = b"\x7fELF" + bytes([2, 1, 1, 0]) + bytes(8) + struct.pack("<HHIQQQIHHHHHH", 3, 62, 1, 0, phoff, 0, 0, 64, 56, phnum, 64, 0, 0)
+    ph0 = struct.pack("<IIQQQQQQ", 1, 5, 0, 0, 0, 100, 100, 4096)
+    ph1 = struct.pack("<IIQQQQQQ", 3, 4, data_off, 0, 0, len(ib), len(ib), 1)
+    return (hdr + bytes(pad) + ib + b"".join([ph0] * (phnum - 1) + [ph1])).decode("latin-1")
 
 
 def elf_image(interp, phnum=2, nul=True):
@@ -509,6 +526,7 @@ def gen_burst_case(rng, deb=None):
     s.exec(3, X + "/vim")
     files = [WATCH + "/inc/a.txt", WATCH + "/inc/b", WATCH + "/d/c.tar.gz", WATCH + "/n", WATCH + "/hist.log", WATCH + "/hd/proj2/f.c"]
     n = 0
+    foreign = rng.random() < 0.35
     if rng.random() < 0.2:
         # the store is unusable for a while (a stray regular file where its root belongs): the pass must report the
         # failure and keep the item; after repair and restart exactly one version is owed
@@ -539,7 +557,9 @@ def gen_burst_case(rng, deb=None):
                     s.append(f, "l%d\n" % n)
                 else:
                     # (a file saved EMPTY is a file like any other: it gets its - empty - version)
-                    s.put(f, "" if rng.random() < 0.1 else "content %d %s" % (n, "x" * rng.randint(0, 20)))
+                    # (one file in five belongs to another user - a group-writable file in a shared directory, saved
+                    # there by a colleague's editor: readable, so it is versioned like any other)
+                    (s.putforeign if (foreign and f == files[1]) else s.put)(f, "" if rng.random() < 0.1 else "content %d %s" % (n, "x" * rng.randint(0, 20)))
                 s.write(3, f)
                 if rng.random() < 0.3:
                     s.tick(rng.choice([0, 1]))
